@@ -11,3 +11,12 @@ func (a *Attestations) ZZSetRawAuthorization(path string, blobID githash.Hash) {
 	}
 	a.referenceAuthorizations[path] = blobID
 }
+
+// ZZSetRawCodeReviewApproval stores a code-review approval blob at an
+// arbitrary path of the code-review approvals tree.
+func (a *Attestations) ZZSetRawCodeReviewApproval(path string, blobID githash.Hash) {
+	if a.codeReviewApprovalAttestations == nil {
+		a.codeReviewApprovalAttestations = map[string]githash.Hash{}
+	}
+	a.codeReviewApprovalAttestations[path] = blobID
+}
